@@ -205,7 +205,7 @@ func (c *Collection) set(key string, exp Exp, opts *sgbucket.UpsertOptions, val 
 	}
 	return c.withNewCas(func(txn *sql.Tx, newCas CAS) (*event, error) {
 		exp = absoluteExpiry(exp)
-		xattrs, revSeqNo, err := c._set(txn, key, exp, opts, val, isJSON, newCas)
+		xattrs, revSeqNo, exp, err := c._set(txn, key, exp, opts, val, isJSON, newCas)
 		if err != nil {
 			return nil, err
 		}
@@ -222,7 +222,8 @@ func (c *Collection) set(key string, exp Exp, opts *sgbucket.UpsertOptions, val 
 }
 
 // Core code of Set/SetRaw/Incr. Must be in a transaction when called.
-func (c *Collection) _set(txn *sql.Tx, key string, exp Exp, opts *sgbucket.UpsertOptions, val []byte, isJSON bool, newCas CAS) (xattrs []byte, revSeqNo uint64, err error) {
+// Returns the document's xattrs, its new revSeqNo and the expiry that was stored (which is the previous one if opts.PreserveExpiry).
+func (c *Collection) _set(txn *sql.Tx, key string, exp Exp, opts *sgbucket.UpsertOptions, val []byte, isJSON bool, newCas CAS) (xattrs []byte, revSeqNo uint64, expOut Exp, err error) {
 	exp = absoluteExpiry(exp)
 
 	// First get the existing xattrs and exp, and check whether the doc is a tombstone:
@@ -255,7 +256,7 @@ func (c *Collection) _set(txn *sql.Tx, key string, exp Exp, opts *sgbucket.Upser
 				VALUES (?1,?2,?3,?4,?5,?6,?7,?8)`
 	}
 	_, err = txn.Exec(stmt, c.id, key, val, xattrs, newCas, exp, isJSON, revSeqNo)
-	return
+	return xattrs, revSeqNo, exp, err
 }
 
 // Non-Raw:
@@ -530,7 +531,7 @@ func (c *Collection) Incr(key string, amt, deflt uint64, exp Exp) (result uint64
 
 		raw := []byte(strconv.FormatUint(result, 10))
 
-		xattrs, revSeqNo, err := c._set(txn, key, exp, nil, raw, true, newCas)
+		xattrs, revSeqNo, _, err := c._set(txn, key, exp, nil, raw, true, newCas)
 		if err != nil {
 			return nil, err
 		}
